@@ -1,14 +1,78 @@
 From ZT Require Import Base Threads LayersFacts.
 
-Lemma same_refl y : same y y = true.
-Proof. unfold same. destruct (th_known y && th_known y); apply Nat.eqb_refl. Qed.
+Lemma same_refl p : same p p = true.
+Proof. unfold same. destruct (snd p); apply Nat.eqb_refl. Qed.
 
-(* the invariant tying the runner's bookkeeping (snapshot + ident comparison) to the statement's (started set) *)
+(* ---- the registry ---- *)
+Lemma lookup_unreg_other r j i : i <> j -> lookup (unreg r j) i = lookup r i.
+Proof.
+  intros Hne. induction r as [|[k o] r IH]; simpl; [reflexivity|].
+  destruct (Nat.eqb k j) eqn:Ekj; simpl.
+  - apply Nat.eqb_eq in Ekj. subst k. destruct (Nat.eqb j i) eqn:Eji; [apply Nat.eqb_eq in Eji; congruence | exact IH].
+  - destruct (Nat.eqb k i); [reflexivity | exact IH].
+Qed.
+
+Lemma lookup_register_other r x i : i <> th_ident x -> lookup (register r x) i = lookup r i.
+Proof.
+  intros Hne. unfold register. destruct (th_known x).
+  - simpl. destruct (Nat.eqb (th_ident x) i) eqn:E; [apply Nat.eqb_eq in E; congruence|]. apply lookup_unreg_other. exact Hne.
+  - destruct (th_cur x); [|reflexivity]. destruct (lookup r (th_ident x)); [reflexivity|].
+    simpl. destruct (Nat.eqb (th_ident x) i) eqn:E; [apply Nat.eqb_eq in E; congruence | reflexivity].
+Qed.
+
+Lemma lookup_finish_other al id i : forall r,
+  (forall z, In z al -> th_id z = id -> th_ident z <> i) -> lookup (finish_reg r al id) i = lookup r i.
+Proof.
+  unfold finish_reg. induction al as [|z al IH]; simpl; intros r H; [reflexivity|].
+  rewrite IH; [|intros z' Hz'; apply H; now right].
+  destruct (Nat.eqb (th_id z) id && th_known z) eqn:E; [|reflexivity].
+  apply andb_true_iff in E. destruct E as [E _]. apply Nat.eqb_eq in E.
+  apply lookup_unreg_other. intros Heq. apply (H z (or_introl eq_refl) E). congruence.
+Qed.
+
+(* ---- lists without duplicates under a projection ---- *)
+Lemma nodup_map_inj {A} (f : A -> nat) l a b : NoDup (map f l) -> In a l -> In b l -> f a = f b -> a = b.
+Proof.
+  induction l as [|x l IH]; simpl; intros Hnd Ha Hb E; [contradiction|].
+  inversion Hnd as [|? ? Hnot Hnd']; subst.
+  destruct Ha as [<-|Ha], Hb as [<-|Hb]; try reflexivity.
+  - exfalso. apply Hnot. rewrite E. now apply in_map.
+  - exfalso. apply Hnot. rewrite <- E. now apply in_map.
+  - now apply IH.
+Qed.
+
+Lemma nodup_map_filter {A} (f : A -> nat) p l : NoDup (map f l) -> NoDup (map f (filter p l)).
+Proof.
+  induction l as [|x l IH]; simpl; intros Hnd; [constructor|].
+  inversion Hnd as [|? ? Hnot Hnd']; subst. destruct (p x); simpl; [|now apply IH].
+  constructor; [|now apply IH]. intros Hin. apply Hnot. apply in_map_iff in Hin. destruct Hin as [y [Ey Hy]].
+  apply filter_In in Hy. rewrite <- Ey. apply in_map. tauto.
+Qed.
+
+Lemma nodup_map_snoc {A} (f : A -> nat) l x : NoDup (map f l) -> ~ In (f x) (map f l) -> NoDup (map f (l ++ [x])).
+Proof.
+  induction l as [|y l IH]; simpl; intros Hnd Hnot.
+  - constructor; [intros []|constructor].
+  - inversion Hnd as [|? ? Hn Hnd']; subst. constructor.
+    + rewrite map_app, in_app_iff. simpl. intros [H|[H|[]]]; [now apply Hn|]. apply Hnot. left. congruence.
+    + apply IH; [exact Hnd'|]. intros H. apply Hnot. now right.
+Qed.
+
+Lemma t_nodupb_spec l : t_nodupb l = true -> NoDup l.
+Proof.
+  induction l as [|x l IH]; simpl; intros H; [constructor|].
+  apply andb_true_iff in H. destruct H as [H1 H2]. constructor; [|now apply IH].
+  apply negb_true_iff in H1. now apply mem_false in H1.
+Qed.
+
+(* the invariant tying the runner's bookkeeping (snapshot of proxies + __eq__) to the statement's (started set) *)
 Record Inv (ts : tstate) (ss : sstate) : Prop := {
   inv_alive : alive ts = s_alive ss;
   inv_rep : reports ts = s_reports ss;
-  inv_old : forall y, In y (alive ts) -> mem (th_id y) (s_started ss) = false -> In y (snap ts);
-  inv_new : forall y, In y (alive ts) -> mem (th_id y) (s_started ss) = true -> existsb (same y) (snap ts) = false
+  inv_idents : NoDup (map th_ident (alive ts));
+  inv_old : forall y, In y (alive ts) -> mem (th_id y) (s_started ss) = false -> In (proxy_of (active ts) y) (snap ts);
+  inv_new : forall y, In y (alive ts) -> mem (th_id y) (s_started ss) = true ->
+            existsb (same (proxy_of (active ts) y)) (snap ts) = false
 }.
 
 Lemma filter_ext_in' {A} (f g : A -> bool) l : (forall x, In x l -> f x = g x) -> filter f l = filter g l.
@@ -19,47 +83,61 @@ Qed.
 
 Lemma step_inv ts ss e : Inv ts ss -> fresh_step ts e = true -> Inv (tstep ts e) (sstep ss e).
 Proof.
-  intros [Ha Hr Ho Hn] Hf. destruct e as [t|x|id|t]; simpl.
+  intros [Ha Hr Hi Ho Hn] Hf. destruct e as [t|x|id|t]; simpl.
   - constructor; simpl.
     + exact Ha.
     + exact Hr.
-    + intros y Hy _. exact Hy.
+    + exact Hi.
+    + intros y Hy _. now apply in_map.
     + intros y _ H. discriminate.
-  - simpl in Hf. apply andb_true_iff in Hf. destruct Hf as [Hid Hfresh].
-    rewrite negb_true_iff in Hfresh.
-    assert (Hnot : forall y, In y (alive ts ++ snap ts) -> th_id y <> th_id x).
-    { intros y Hy E. rewrite <- not_true_iff_false in Hfresh. apply Hfresh. apply existsb_exists.
-      exists y. split; [exact Hy | apply Nat.eqb_eq; exact E]. }
+  - simpl in Hf. apply andb_true_iff in Hf. destruct Hf as [Hf Hident]. apply andb_true_iff in Hf. destruct Hf as [Hdist Hid].
+    apply negb_true_iff in Hid. apply mem_false in Hid. apply negb_true_iff in Hident. apply mem_false in Hident.
+    assert (Hnot : forall y, In y (alive ts) -> th_id y <> th_id x).
+    { intros y Hy E. apply Hid. rewrite <- E. now apply in_map. }
+    assert (Hsame : forall y, In y (alive ts) -> proxy_of (register (active ts) x) y = proxy_of (active ts) y).
+    { intros y Hy. unfold proxy_of. rewrite lookup_register_other; [reflexivity|].
+      intros E. apply Hident. rewrite <- E. now apply in_map. }
     constructor; simpl.
     + now rewrite Ha.
     + exact Hr.
+    + apply nodup_map_snoc; assumption.
     + intros y Hy Hm. apply in_app_or in Hy. destruct Hy as [Hy|[<-|[]]].
-      * apply Ho; [exact Hy|]. apply mem_false. intros Hin. apply mem_false in Hm. apply Hm. apply in_or_app. now left.
+      * rewrite (Hsame y Hy). apply Ho; [exact Hy|]. apply mem_false. intros Hin. apply mem_false in Hm. apply Hm.
+        apply in_or_app. now left.
       * exfalso. apply mem_false in Hm. apply Hm. apply in_or_app. right. now left.
     + intros y Hy Hm. apply in_app_or in Hy. destruct Hy as [Hy|[<-|[]]].
-      * apply Hn; [exact Hy|]. apply mem_In in Hm. apply in_app_or in Hm. destruct Hm as [Hm|[E|[]]].
+      * rewrite (Hsame y Hy). apply Hn; [exact Hy|]. apply mem_In in Hm. apply in_app_or in Hm. destruct Hm as [Hm|[E|[]]].
         -- apply mem_In. exact Hm.
-        -- exfalso. apply (Hnot y); [apply in_or_app; now left | congruence].
+        -- exfalso. apply (Hnot y Hy). congruence.
       * (* the new thread itself: equal to nothing in the snapshot *)
-        apply not_true_iff_false. intros He. apply existsb_exists in He. destruct He as [s [Hs Hsame]].
-        rewrite forallb_forall in Hid. specialize (Hid s Hs). unfold same in Hsame.
-        destruct (th_known x && th_known s) eqn:Ek.
-        -- apply Nat.eqb_eq in Hsame. apply (Hnot s); [apply in_or_app; now right | congruence].
-        -- rewrite Hsame in Hid. simpl in Hid. discriminate.
-  - constructor; simpl.
+        apply not_true_iff_false. intros He. apply existsb_exists in He. destruct He as [s [Hs Hsm]].
+        rewrite forallb_forall in Hdist. specialize (Hdist s Hs). unfold distinguishable in Hdist.
+        rewrite Hsm in Hdist. discriminate.
+  - assert (Hsame : forall y, In y (alive ts) -> th_id y <> id ->
+                    proxy_of (finish_reg (active ts) (alive ts) id) y = proxy_of (active ts) y).
+    { intros y Hy Hne. unfold proxy_of. rewrite lookup_finish_other; [reflexivity|].
+      intros z Hz Ez E. apply Hne. rewrite <- Ez. f_equal. symmetry.
+      apply (nodup_map_inj th_ident (alive ts) z y Hi Hz Hy E). }
+    assert (Hflt : forall y, In y (filter (fun y => negb (Nat.eqb (th_id y) id)) (alive ts)) -> In y (alive ts) /\ th_id y <> id).
+    { intros y Hy. apply filter_In in Hy. destruct Hy as [Hy Hne]. split; [exact Hy|].
+      apply negb_true_iff in Hne. now apply Nat.eqb_neq in Hne. }
+    constructor; simpl.
     + now rewrite Ha.
     + exact Hr.
-    + intros y Hy Hm. apply filter_In in Hy. apply Ho; tauto.
-    + intros y Hy Hm. apply filter_In in Hy. apply Hn; tauto.
-  - assert (Hflt : filter (fun y => negb (existsb (same y) (snap ts)) && negb (th_ignored y)) (alive ts)
+    + apply nodup_map_filter. exact Hi.
+    + intros y Hy Hm. destruct (Hflt y Hy) as [Hy' Hne]. rewrite (Hsame y Hy' Hne). now apply Ho.
+    + intros y Hy Hm. destruct (Hflt y Hy) as [Hy' Hne]. rewrite (Hsame y Hy' Hne). now apply Hn.
+  - assert (Hflt : filter (fun y => negb (existsb (same (proxy_of (active ts) y)) (snap ts)) && negb (th_ignored y)) (alive ts)
                  = filter (fun y => mem (th_id y) (s_started ss) && negb (th_ignored y)) (s_alive ss)).
     { rewrite <- Ha. apply filter_ext_in'. intros y Hy. f_equal.
       destruct (mem (th_id y) (s_started ss)) eqn:Hm.
       - rewrite (Hn y Hy Hm). reflexivity.
-      - assert (Hin := Ho y Hy Hm). apply negb_false_iff. apply existsb_exists. exists y. split; [exact Hin | apply same_refl]. }
+      - assert (Hin := Ho y Hy Hm). apply negb_false_iff. apply existsb_exists.
+        exists (proxy_of (active ts) y). split; [exact Hin | apply same_refl]. }
     constructor; simpl.
     + exact Ha.
     + rewrite Hflt, Hr. reflexivity.
+    + exact Hi.
     + exact Ho.
     + exact Hn.
 Qed.
@@ -72,24 +150,45 @@ Proof.
             reports (fold_left tstep h ts) = s_reports (fold_left sstep h ss)).
   { induction h0 as [|e r IH]; simpl; intros ts ss HI Hf; [apply HI|].
     apply andb_true_iff in Hf. destruct Hf as [H1 H2]. apply IH; [apply step_inv; assumption | exact H2]. }
-  intros Hf. apply Hgen; [|exact Hf]. constructor; simpl.
+  intros Hf. apply andb_true_iff in Hf. destruct Hf as [Hnd Hf]. apply Hgen; [|exact Hf]. constructor; simpl.
   - reflexivity.
   - reflexivity.
-  - intros y Hy _. exact Hy.
+  - apply t_nodupb_spec. exact Hnd.
+  - intros y Hy _. now apply in_map.
   - intros y _ H. discriminate.
 Qed.
 
 (* without the hypothesis the statement fails: a leaked low-level thread that received the ident of a thread
    which existed when the test began goes unreported *)
-Definition ex_A := {| th_id := 1; th_ident := 77; th_known := false; th_ignored := false |}.
-Definition ex_B := {| th_id := 2; th_ident := 77; th_known := false; th_ignored := false |}.
+Definition mk (id ident : nat) (known cur ign : bool) :=
+  {| th_id := id; th_ident := ident; th_known := known; th_cur := cur; th_ignored := ign |}.
+Definition ex_A := mk 1 77 false false false.
+Definition ex_B := mk 2 77 false false false.
 Theorem c19_ident_reuse_refuted :
   exists init h, reports (trun init h) <> s_reports (srun init h).
 Proof.
   exists [ex_A], [TBegin 0; TFinish 1; TStart ex_B; TEnd 0]. vm_compute. discriminate.
 Qed.
 
+(* the same through the registry: threading never drops the _DummyThread it made for a low-level thread that asked who it
+   is, so a second such thread on the same ident is handed the old object and cannot be told from the first *)
+Theorem c19_stale_dummy_refuted :
+  exists init h, reports (trun init h) <> s_reports (srun init h).
+Proof.
+  exists [mk 1 1 true false false],
+         [TBegin 0; TStart (mk 5 77 false true false); TEnd 0;
+          TBegin 1; TFinish 5; TStart (mk 6 77 false true false); TEnd 1].
+  vm_compute. discriminate.
+Qed.
+
+(* …while a thread started through threading on that ident replaces the stale record and is reported *)
+Example c19_threading_replaces_stale :
+  let h := [TBegin 0; TStart (mk 5 77 false true false); TEnd 0;
+            TBegin 1; TFinish 5; TStart (mk 6 77 true false false); TEnd 1] in
+  idents_fresh [mk 1 1 true false false] h = true /\ reports (trun [mk 1 1 true false false] h) = [(0, [5]); (1, [6])].
+Proof. vm_compute. split; reflexivity. Qed.
+
 Example c19_hypothesis_satisfiable :
-  idents_fresh [ex_A] [TBegin 0; TStart {| th_id := 5; th_ident := 78; th_known := true; th_ignored := false |}; TEnd 0;
-                       TBegin 1; TFinish 5; TStart {| th_id := 6; th_ident := 78; th_known := true; th_ignored := true |}; TEnd 1] = true.
+  idents_fresh [ex_A] [TBegin 0; TStart (mk 5 78 true false false); TEnd 0;
+                       TBegin 1; TFinish 5; TStart (mk 6 78 true false true); TEnd 1] = true.
 Proof. reflexivity. Qed.
